@@ -202,7 +202,9 @@ CORPUS = {
         M("first-directive-wins", C, [("                if tag in CompileOptions.__dataclass_fields__:\n                    setattr(options, tag, value)", "                if tag in CompileOptions.__dataclass_fields__:\n                    setattr(options, tag, value)\n                    break")], ["R15.e"]),
     ],
     "C17": [
-        M("bytes-without-minus-one", G, [("num_bytes = len(s) + num_lines - 1", "num_bytes = len(s) + num_lines")], ["R17.b"]),
+        M("bytes-without-minus-one", G, [("num_bytes = len(s) + max(num_lines - 1, 0)", "num_bytes = len(s) + max(num_lines, 0)")], ["R17.b"]),
+        M("bytes-unclamped-for-empty-result", G, [("num_bytes = len(s) + max(num_lines - 1, 0)", "num_bytes = len(s) + num_lines - 1")], ["R17.b"]),
+        N("bytes-by-counting-newlines", G, [("num_bytes = len(s) + max(num_lines - 1, 0)", 'num_bytes = len(s) + s.count("\\n")')]),
         M("lines-counted-before-version-note", G, [("        num_lines = len(s.splitlines())\n", "        num_lines = len(self.code)\n")], ["R17.a"]),
         M("register-not-counted", RA, [("            used_registers.add(reg_num)\n", "")], ["R17.c"]),
     ],
